@@ -47,6 +47,9 @@ pub struct Scenario {
     pub script: Vec<Act>,
     /// re-run with a fresh channel when stopped at the k-th hit (0-based), if it exists
     pub rerun_at: Option<usize>,
+    /// start a second run right after the first, before receiving anything (capacity 2: room for
+    /// one hit and the final event of the first session, so no delivered event is ever stuck)
+    pub rerun_immediately: bool,
     pub cap: usize,
     pub sched_seed: u64,
     pub schedules: usize,
@@ -57,7 +60,7 @@ fn scen_json(s: &Scenario) -> Value {
     json!({
         "grammar": s.grammar, "rule": s.rule, "input": s.input, "breakpoints": s.breakpoints,
         "script": s.script.iter().map(|a| match a { Act::None => json!("none"), Act::Add(n) => json!({"add": n}), Act::Del(n) => json!({"del": n}) }).collect::<Vec<_>>(),
-        "rerun_at": s.rerun_at, "cap": s.cap, "sched_seed": s.sched_seed, "schedules": s.schedules, "pct": s.pct,
+        "rerun_at": s.rerun_at, "rerun_immediately": s.rerun_immediately, "cap": s.cap, "sched_seed": s.sched_seed, "schedules": s.schedules, "pct": s.pct,
     })
 }
 fn scen_from_json(v: &Value) -> Scenario {
@@ -81,6 +84,7 @@ fn scen_from_json(v: &Value) -> Scenario {
             })
             .collect(),
         rerun_at: v["rerun_at"].as_u64().map(|x| x as usize),
+        rerun_immediately: v["rerun_immediately"].as_bool().unwrap_or(false),
         cap: v["cap"].as_u64().unwrap_or(1) as usize,
         sched_seed: v["sched_seed"].as_u64().unwrap_or(1),
         schedules: v["schedules"].as_u64().unwrap_or(200) as usize,
@@ -159,6 +163,36 @@ fn execute(s: &Scenario, entries: &[(String, usize)], end: &DebuggerEvent) {
     let (exp1, bps_after, reran) = expected(entries, end, &s.breakpoints, &s.script, s.rerun_at);
     let (tx, rx) = shim::sync_channel::<DebuggerEvent>(s.cap);
     ctx.run(&s.rule, tx).expect("run");
+    if s.rerun_immediately {
+        // nothing has been received because nothing had to be: whatever the first session manages
+        // to deliver fits in its channel, so a new run must terminate it whatever the timing
+        let (tx2, rx2) = shim::sync_channel::<DebuggerEvent>(s.cap);
+        let r = ctx.run(&s.rule, tx2);
+        assert!(r.is_ok(), "C17: immediate re-run failed: {:?}", r.err().map(|e| e.to_string()));
+        let (exp2, _, _) = expected(entries, end, &s.breakpoints, &[], None);
+        let mut got2 = vec![];
+        let mut conts2 = 0usize;
+        loop {
+            let ev = rx2.recv().expect("C17: second session's channel closed early");
+            let is_bp = matches!(ev, DebuggerEvent::Breakpoint(..));
+            got2.push(ev);
+            assert!(got2.len() <= 1 + conts2, "C17: {} events delivered after only {} continues (second session)", got2.len(), conts2);
+            if !is_bp {
+                break;
+            }
+            assert!(rx2.try_recv().is_err(), "C17: an event was delivered while waiting for a continue (second session)");
+            conts2 += 1;
+            ctx.cont().expect("C17: cont() failed in the second session");
+        }
+        assert_eq!(got2, exp2, "C17: events of the immediate re-run differ from the parse's breakpoint hits");
+        // the first session may have delivered at most its first hit and its final event
+        let mut first = vec![];
+        while let Ok(ev) = rx.try_recv() {
+            first.push(ev);
+        }
+        assert!(first.len() <= 2, "C17: the terminated first session delivered {} events without a single continue", first.len());
+        return;
+    }
     let mut got: Vec<DebuggerEvent> = vec![];
     let mut k = 0usize;
     let mut conts = 0usize;
@@ -298,9 +332,10 @@ fn build_scenario(g: &Gram, spec: &InputSpec, ch: &[u16], sched_seed: u64, pct: 
         });
     }
     let rerun_at = if chooser.pick(2) == 1 { Some(chooser.pick(4)) } else { None };
+    let rerun_immediately = rerun_at.is_none() && chooser.pick(3) == 0;
     // a rendezvous channel cannot take the previous session's final event during run(): re-runs use capacity >= 1
-    let cap = if rerun_at.is_some() { 1 + chooser.pick(2) } else { chooser.pick(3) };
-    Some(Scenario { grammar: text, rule, input, breakpoints: bps, script, rerun_at, cap, sched_seed, schedules, pct })
+    let cap = if rerun_immediately { 2 } else if rerun_at.is_some() { 1 + chooser.pick(2) } else { chooser.pick(3) };
+    Some(Scenario { grammar: text, rule, input, breakpoints: bps, script, rerun_at, rerun_immediately, cap, sched_seed, schedules, pct })
 }
 
 fn run(ctx: &mut Ctx) {
@@ -316,7 +351,10 @@ fn run(ctx: &mut Ctx) {
         ctx.evals_n(s.schedules as u64);
         ctx.class("scenario:run");
         let changes = s.script.iter().take(hits).any(|a| !matches!(a, Act::None));
-        if hits >= 3 && (changes || (reran && s.rerun_at.unwrap_or(0) >= 1)) {
+        if s.rerun_immediately {
+            ctx.class("immediate-rerun");
+        }
+        if hits >= 3 && (changes || (reran && s.rerun_at.unwrap_or(0) >= 1) || s.rerun_immediately) {
             ctx.nontrivial(&s);
             ctx.class("nt");
             if reran {
@@ -331,7 +369,7 @@ fn run(ctx: &mut Ctx) {
         let grammar = "alpha = { 'a'..'z' | 'A'..'Z' }\ndigit = { '0'..'9' }\nident = { !digit ~ (alpha | digit)+ }\nident_list = _{ ident ~ (\" \" ~ ident)* }\n";
         for k in 0..4 {
             for bps in [vec!["ident".to_string()], vec!["alpha".to_string(), "ident".to_string()]] {
-                let s = Scenario { grammar: grammar.into(), rule: "ident_list".into(), input: "ab c1".into(), breakpoints: bps, script: vec![], rerun_at: Some(k), cap: 1, sched_seed: ctx.seed ^ k as u64, schedules, pct: k % 2 == 0 };
+                let s = Scenario { grammar: grammar.into(), rule: "ident_list".into(), input: "ab c1".into(), breakpoints: bps, script: vec![], rerun_at: if k == 3 { None } else { Some(k) }, rerun_immediately: k == 3, cap: if k == 3 { 2 } else { 1 }, sched_seed: ctx.seed ^ k as u64, schedules, pct: k % 2 == 0 };
                 match run_scenario(&s) {
                     Ok(_) => ctx.evals_n(schedules as u64),
                     Err(f) => {
@@ -349,7 +387,7 @@ fn replay(case: &Value) -> Result<(), Fail> {
 
 const DEF: CheckDef = CheckDef {
     id: "C17",
-    rule: "proptest-generated scenarios: small stack-free grammar (<= 4 rules, optional WHITESPACE/COMMENT) x one start rule x one generated input (parse of <= 60 rule calls) x a breakpoint set over the rule names and the built-ins ANY/EOI x a controller script (per hit: nothing / add a breakpoint / delete a breakpoint; optionally a re-run with a fresh channel while stopped at hit #0-3) x channel capacity 0-2 (>= 1 when re-running), each executed under 200 (quick) / 2000 (thorough) schedules of shuttle's seeded random or PCT(3) scheduler; the debugger source of the working tree is compiled against a shuttle-backed shim by build.rs. Oracle: the expected event list is computed from a plain Vm::new_with_listener run that records every (rule, position) entry, filtered by the breakpoint set in force; the controller must receive exactly that list, then Eof or the Error text of a plain VM parse; at most 1 + #continues events at any time and none while waiting; a re-run after all delivered events were received returns Ok and the second session again delivers exactly its hits; shuttle reports a deadlock if any explored schedule blocks forever. evaluations = executions (scenario x schedule). Non-trivial = >= 3 hits and (a breakpoint change while stopped, or a re-run while stopped at hit >= 1); distinct = distinct scenario.",
+    rule: "proptest-generated scenarios: small stack-free grammar (<= 4 rules, optional WHITESPACE/COMMENT) x one start rule x one generated input (parse of <= 60 rule calls) x a breakpoint set over the rule names and the built-ins ANY/EOI x a controller script (per hit: nothing / add a breakpoint / delete a breakpoint; optionally a re-run with a fresh channel while stopped at hit #0-3, or an immediate second run before anything is received (capacity 2)) x channel capacity 0-2 (>= 1 when re-running), each executed under 200 (quick) / 2000 (thorough) schedules of shuttle's seeded random or PCT(3) scheduler; the debugger source of the working tree is compiled against a shuttle-backed shim by build.rs. Oracle: the expected event list is computed from a plain Vm::new_with_listener run that records every (rule, position) entry, filtered by the breakpoint set in force; the controller must receive exactly that list, then Eof or the Error text of a plain VM parse; at most 1 + #continues events at any time and none while waiting; a re-run after all delivered events were received returns Ok and the second session again delivers exactly its hits; shuttle reports a deadlock if any explored schedule blocks forever. evaluations = executions (scenario x schedule). Non-trivial = >= 3 hits and (a breakpoint change while stopped, or a re-run while stopped at hit >= 1); distinct = distinct scenario.",
     assumptions: &[
         "park() in the shim returns only after an unpark (models timing, not the spurious wake-ups std permits)",
         "liveness only as deadlock-freedom of the explored schedules; re-runs use channel capacity >= 1 (a rendezvous channel cannot take the previous session's final event while run() joins it)",
